@@ -1,2 +1,99 @@
-(* PropsC03.v — C03: typed unpacking preserves the value or fails - it never wraps around. *)
-From Ucfg Require Import Base ParseInt Consts Field Tree F64 Conv.
+(* PropsC03.v — C03: typed unpacking preserves the value or fails - it never wraps around.
+   Statements only; proofs are in ProofsConv.v. *)
+From Ucfg Require Import Base ParseInt Consts Field Tree F64 Conv ProofsField ProofsConv.
+
+(* A sized signed integer target holds exactly the integer the setting converts to, and that
+   integer lies in the target's range. *)
+Theorem c03_signed_sound : forall ft dur bits v c,
+  conv ft dur (KInt bits) v = Ok c ->
+  exists i, c = CI i /\ to_int v = Ok i /\ - 2 ^ (bits - 1) <= i <= 2 ^ (bits - 1) - 1.
+Proof. exact conv_int_sound. Qed.
+Print Assumptions c03_signed_sound.
+
+(* ... and a value outside the range of the target is always an error (no wrap-around). *)
+Theorem c03_signed_never_wraps : forall ft dur bits v i,
+  to_int v = Ok i -> ~ (- 2 ^ (bits - 1) <= i <= 2 ^ (bits - 1) - 1) ->
+  conv ft dur (KInt bits) v = Err EOverflow "".
+Proof. exact conv_int_overflow. Qed.
+Print Assumptions c03_signed_never_wraps.
+
+Theorem c03_unsigned_sound : forall ft dur bits v c,
+  conv ft dur (KUint bits) v = Ok c ->
+  exists u, c = CU u /\ to_uint v = Ok u /\ u <= 2 ^ bits - 1.
+Proof. exact conv_uint_sound. Qed.
+Print Assumptions c03_unsigned_sound.
+
+Theorem c03_unsigned_never_wraps : forall ft dur bits v u,
+  to_uint v = Ok u -> 2 ^ bits - 1 < u -> conv ft dur (KUint bits) v = Err EOverflow "".
+Proof. exact conv_uint_overflow. Qed.
+Print Assumptions c03_unsigned_never_wraps.
+
+(* a negative integer is never an unsigned value *)
+Theorem c03_negative_is_error_for_unsigned : forall i, i < 0 -> to_uint (VInt i) = Err ENegative "".
+Proof. exact to_uint_negative_int. Qed.
+Print Assumptions c03_negative_is_error_for_unsigned.
+
+(* Floats to integers: the result is the truncation toward zero of the float's exact value
+   m*2^e, and it fits into int64; ... *)
+Theorem c03_float_to_int_exact : forall bits t,
+  float_to_int bits = Ok t ->
+  exists neg m e, decode bits = FFin neg m e /\ t = fin_trunc neg m e /\ minI64 <= t <= maxI64.
+Proof. exact float_to_int_sound. Qed.
+Print Assumptions c03_float_to_int_exact.
+
+(* ... where truncation means: |t| <= m*2^e < |t|+1 (stated without rationals) *)
+Theorem c03_trunc_is_toward_zero : forall m e, 0 <= m ->
+  let t := fin_trunc false m e in
+  if 0 <=? e then t = m * 2 ^ e else t * 2 ^ (- e) <= m < (t + 1) * 2 ^ (- e).
+Proof. exact fin_trunc_pos_spec. Qed.
+Print Assumptions c03_trunc_is_toward_zero.
+
+(* ... a float whose truncation does not fit is an error, and so are NaN and the infinities *)
+Theorem c03_float_out_of_range_is_error : forall bits,
+  (forall neg m e, decode bits = FFin neg m e -> ~ (minI64 <= fin_trunc neg m e <= maxI64)) ->
+  float_to_int bits = Err EOverflow "".
+Proof. exact float_to_int_complete. Qed.
+Print Assumptions c03_float_out_of_range_is_error.
+
+Theorem c03_nan_inf_are_errors_for_int : forall bits,
+  (decode bits = FNaN \/ exists n, decode bits = FInf n) -> float_to_int bits = Err EOverflow "".
+Proof. exact float_to_int_nan_inf. Qed.
+Print Assumptions c03_nan_inf_are_errors_for_int.
+
+Theorem c03_nan_inf_are_errors_for_uint : forall bits,
+  (decode bits = FNaN \/ exists n, decode bits = FInf n) -> exists r, float_to_uint bits = Err r "".
+Proof. exact float_to_uint_nan_inf. Qed.
+Print Assumptions c03_nan_inf_are_errors_for_uint.
+
+(* every integer the library hands out for a well-formed stored value is an int64 *)
+Theorem c03_to_int_is_int64 : forall v i, wf_prim v -> to_int v = Ok i -> minI64 <= i <= maxI64.
+Proof. exact to_int_range. Qed.
+Print Assumptions c03_to_int_is_int64.
+
+(* Numbers to durations mean seconds: exact nanoseconds or an error. *)
+Theorem c03_duration_seconds_exact : forall ft dur i c,
+  conv ft dur KDuration (VInt i) = Ok c -> c = CD (i * second_ns) /\ minI64 <= i * second_ns <= maxI64.
+Proof. exact conv_duration_int. Qed.
+Print Assumptions c03_duration_seconds_exact.
+
+Theorem c03_duration_never_wraps : forall ft dur i,
+  ~ (minI64 <= i * second_ns <= maxI64) -> conv ft dur KDuration (VInt i) = Err EOverflow "".
+Proof. exact conv_duration_int_overflow. Qed.
+Print Assumptions c03_duration_never_wraps.
+
+Theorem c03_duration_nan_inf_are_errors : forall ft dur bits,
+  (decode bits = FNaN \/ exists n, decode bits = FInf n) ->
+  conv ft dur KDuration (VFloat bits) = Err EOverflow "".
+Proof. exact conv_duration_float_nan_inf. Qed.
+Print Assumptions c03_duration_nan_inf_are_errors.
+
+(* Non-vacuity and the former failures, evaluated on the model. *)
+Example c03_ex_int8_max : conv [] (fun _ => None) (KInt 8) (VInt 127) = Ok (CI 127). Proof. reflexivity. Qed.
+Example c03_ex_int8_over : conv [] (fun _ => None) (KInt 8) (VInt 128) = Err EOverflow "". Proof. reflexivity. Qed.
+Example c03_ex_float_2p63 :   (* float64 2^63 into int64: was MinInt64 *)
+  conv [] (fun _ => None) (KInt 64) (VFloat 4890909195324358656) = Err EOverflow "". Proof. vm_compute. reflexivity. Qed.
+Example c03_ex_float_trunc :  (* -1.5 into int8 is -1 *)
+  conv [] (fun _ => None) (KInt 8) (VFloat 13832806255468478464) = Ok (CI (-1)). Proof. vm_compute. reflexivity. Qed.
+Example c03_ex_nan : conv [] (fun _ => None) (KInt 32) (VFloat nan_bits) = Err EOverflow "". Proof. vm_compute. reflexivity. Qed.
+Example c03_ex_duration_over : conv [] (fun _ => None) KDuration (VInt 9223372037) = Err EOverflow "". Proof. vm_compute. reflexivity. Qed.
+Example c03_ex_uint_string : conv [] (fun _ => None) (KUint 16) (VStr "0x10") = Ok (CU 16). Proof. vm_compute. reflexivity. Qed.
